@@ -87,7 +87,10 @@ func extractFontCIDType2(c pdf.Cursor, obj pdf.Object) (*dict.CIDFontType2, erro
 		return nil, err
 	}
 
-	d.ToUnicode, _ = pdf.Decode(c, fontDict["ToUnicode"], cmap.ExtractToUnicode)
+	d.ToUnicode, err = pdf.Decode(c, fontDict["ToUnicode"], cmap.ExtractToUnicode)
+	if pdf.IsReadError(err) {
+		return nil, err
+	}
 
 	// fields in the CIDFont dictionary
 
@@ -106,7 +109,10 @@ func extractFontCIDType2(c pdf.Cursor, obj pdf.Object) (*dict.CIDFontType2, erro
 		return nil, err
 	}
 
-	d.ROS, _ = pdf.Decode(c, cidFontDict["CIDSystemInfo"], font.ExtractCIDSystemInfo)
+	d.ROS, err = pdf.Decode(c, cidFontDict["CIDSystemInfo"], font.ExtractCIDSystemInfo)
+	if pdf.IsReadError(err) {
+		return nil, err
+	}
 
 	d.Width, err = decodeCompositeWidths(c, cidFontDict["W"])
 	if err != nil {
